@@ -9,6 +9,8 @@ import (
 	"strings"
 )
 
+var pgConstRound int // counts generated packages: every third declares constants of a defined string type
+
 type GenPkg struct {
 	Path, Name string
 	Imports    []string
@@ -346,6 +348,14 @@ func (g *Gen) genProgram(v2 bool, npk int, depth int) ([]GenPkg, []string) {
 		consts := []string{"const C0 = 42", "const C1 string = \"a\\tb\"", "const C2 = \"long string value with spaces\"", "const C3 = 1.5", "const C4 = true", "const C5 int8 = -3", "const C6 = 'x'", "const C7 uint8 = 200",
 			"const C8 = \"0123456789012345678901234567890123456789012345678901234567890123456789X\"",
 			"const C9 string = \"a string constant that is much longer than seventy-two characters, so that constant.Value.String() would abbreviate it ... and more\""}
+		pgConstRound++
+		if pgConstRound%3 == 0 {
+			// string constants of a DEFINED string type (and an expression derived from one): their value is the
+			// string, not its quoted form
+			b.WriteString("type ZColor string\n\nconst C10 ZColor = \"red\"\n\nconst C11 = C10 + \"dish with a tail that makes the constant much longer than seventy-two characters in all\"\n\n")
+			pg.classes["string-constant-of-defined-type"] = true
+			pg.classes["constants"] = true
+		}
 		for _, c := range consts {
 			if g.Chance(0.35) {
 				b.WriteString(c + "\n\n")
